@@ -482,7 +482,7 @@ theorem findD_step [SafePred P] (root : Val) (hroot : SafeKeys P root) (fuel : N
                     · exact P_textTok hop hv
                     · exact P_upTok
                     · exact hrest t ht
-                · exact Post_err rfl
+                · exact ⟨rfl, Good_mk_none hpar hfound⟩
 
 theorem Good_of_fst {root : Val} {f : Res} {v : Val} (h : Good P root f) :
     Good P root { parent := f.parent, nameIdx := f.nameIdx, value := v, found := f.found, notFound := Option.none } :=
